@@ -15,3 +15,26 @@ def collect(h):
     h.nat("mut_MAX_SIZE", smut.MutableShareFile.MAX_SIZE, "storage/mutable.py")
     h.str("mut_HEADER_FORMAT", mutable_schema._HEADER_FORMAT, "storage/mutable_schema.py")
     h.nat("DEFAULT_RENEWAL_TIME", sserver.DEFAULT_RENEWAL_TIME, "storage/server.py")
+    # --- added for C23/C24/C25 (mutable containers, leases); only additions below ---
+    from allmydata.storage import lease_schema, immutable_schema
+    v1m = [s for s in mutable_schema.ALL_SCHEMAS if s.version == 1][0]
+    v2m = [s for s in mutable_schema.ALL_SCHEMAS if s.version == 2][0]
+    h.bytes("mut_MAGIC_V1", v1m._magic, "storage/mutable_schema.py _magic(1)")
+    h.bytes("mut_MAGIC_V2", v2m._magic, "storage/mutable_schema.py _magic(2)")
+    h.nat("mut_NEWEST_SCHEMA_VERSION", mutable_schema.NEWEST_SCHEMA_VERSION.version, "storage/mutable_schema.py")
+    h.bool("mut_V1_CLEARTEXT", isinstance(v1m.lease_serializer, lease_schema.CleartextLeaseSerializer), "v1 mutable containers store cleartext lease secrets")
+    h.bool("mut_V2_HASHED", isinstance(v2m.lease_serializer, lease_schema.HashedLeaseSerializer), "v2 mutable containers store hashed lease secrets")
+    h.nat("mut_INITIAL_EXTRA_LEASE_OFFSET", mutable_schema._EXTRA_LEASE_OFFSET, "storage/mutable_schema.py _EXTRA_LEASE_OFFSET")
+    h.nat("mut_INITIAL_FILE_SIZE", len(v2m.header(b"\x00" * 20, b"\x00" * 32)), "len(schema.header(...)): fixed header + 4 blank leases + extra lease count")
+    h.str("lease_IMMUTABLE_FORMAT", lease.IMMUTABLE_FORMAT, "storage/lease.py")
+    h.str("lease_MUTABLE_FORMAT", lease.MUTABLE_FORMAT, "storage/lease.py")
+    h.nat("lease_IMMUTABLE_SIZE", struct.calcsize(lease.IMMUTABLE_FORMAT), "storage/lease.py")
+    h.nat("lease_MUTABLE_SIZE", struct.calcsize(lease.MUTABLE_FORMAT), "storage/lease.py")
+    h.nat("imm_DATA_OFFSET", 0xc, "storage/immutable.py ShareFile._data_offset / header >LLL")
+    h.nat("imm_HEADER_SIZE", struct.calcsize(">LLL"), "storage/immutable.py header >LLL")
+    h.natlist("imm_SCHEMA_VERSIONS", sorted(immutable_schema.ALL_SCHEMA_VERSIONS), "storage/immutable_schema.py")
+    h.nat("imm_NEWEST_SCHEMA_VERSION", immutable_schema.NEWEST_SCHEMA_VERSION.version, "storage/immutable_schema.py")
+    v1i = immutable_schema.schema_from_version(1)
+    v2i = immutable_schema.schema_from_version(2)
+    h.bool("imm_V1_CLEARTEXT", isinstance(v1i.lease_serializer, lease_schema.CleartextLeaseSerializer), "v1 immutable containers store cleartext lease secrets")
+    h.bool("imm_V2_HASHED", isinstance(v2i.lease_serializer, lease_schema.HashedLeaseSerializer), "v2 immutable containers store hashed lease secrets")
